@@ -37,6 +37,12 @@ add("C04", True, "E1-bfs", "model_checking",
     "Trusted: puppets are truthful (monotone bases); timer re-arm rules of Writer::handle_timed_event are modelled (repair offered exactly while armed); History limits as in handle_cache_cleaning.",
     "5.4")
 
+add("C20", True, "E1-bfs", "model_checking",
+    "explicit-state BFS (history replay) over write/match/lose/ack/wait/poll histories on the real Writer + DataWriter, lock-step with a pending-set model; small real-time enumeration for the synchronous form",
+    "All histories up to the depth bound over {Write, Match(r, reliable|best-effort), Lose(r), Ack(r, base), Wait (= first poll of async_wait_for_acknowledgments + the writer processing its command queue), SpuriousPoll} with two reliable and one best-effort reader, under a wake-driven and under a busy-polling executor model, run on a real Writer with a real DataWriter on the same command channel. After every event: the future is Ready(Ok(true)) iff the model's pending set (reliable readers matched at the call that have neither acknowledged everything written before the call nor been lost) is empty, the writer's own waiter set equals the model's, and when the set empties the future's waker has been invoked and the next poll completes. The synchronous wait_for_acknowledgments is run on a helper thread against the same writer over an enumeration of 60+ scenarios (reader mixes x acked-before x ack-all/ack-partial/lose during the wait): success iff condition, promptly; timeout not earlier than requested.",
+    "Trusted: one wait outstanding at a time; monotone puppet bases; the executor model; real-time margins of the synchronous cases (1.5 s vs ~10 ms).",
+    "5.20")
+
 NOT_YET = {}
 
 def main():
